@@ -184,6 +184,7 @@ pub struct Stats {
     pub f_corrupt: u64,
     pub f_crash: u64,
     pub f_close_stdin: u64,
+    pub f_fd_limit: u64,
     pub f_exec_child: u64,
     pub inherited_fds: u64,
     pub inherited_by_kind: [u64; 8],
@@ -816,6 +817,48 @@ pub fn open_fds_of(pid: u32) -> Vec<i32> {
 pub fn open_received_fds() -> Vec<i64> {
     let gl = g();
     (0..MAXFD).filter(|&i| gl.fds[i].open && gl.fds[i].via == 1).map(|i| gl.fds[i].lid as i64).collect()
+}
+/// Put the program exactly at its descriptor limit with `k` free slots: every descriptor number
+/// below the limit is in use (holes are plugged with harness-owned fillers, as a program that has
+/// reached its limit has no holes), except `k` numbers. Returns what `restore_fd_limit` needs.
+pub fn fd_limit_with_free_slots(k: usize) -> (u64, Vec<i32>) {
+    unsafe {
+        let mut old = libc::rlimit { rlim_cur: 0, rlim_max: 0 };
+        libc::getrlimit(libc::RLIMIT_NOFILE, &mut old);
+        let open = |fd: i64| raw6(libc::SYS_fcntl, fd, libc::F_GETFD as i64, 0, 0, 0, 0) >= 0;
+        let mut max_open = 0i64;
+        for fd in 0..8192i64 {
+            if open(fd) {
+                max_open = fd;
+            }
+        }
+        let holes: Vec<i64> = (0..max_open).filter(|fd| !open(*fd)).collect();
+        let mut fillers = vec![];
+        let keep_free = k.min(holes.len());
+        // plug all holes but the `keep_free` highest ones
+        for fd in holes.iter().take(holes.len() - keep_free) {
+            let r = raw6(libc::SYS_dup3, 2, *fd, libc::O_CLOEXEC as i64, 0, 0, 0);
+            if r >= 0 {
+                fillers.push(*fd as i32);
+            }
+        }
+        let limit = (max_open + 1) as u64 + (k - keep_free) as u64;
+        let new = libc::rlimit { rlim_cur: limit, rlim_max: old.rlim_max };
+        libc::setrlimit(libc::RLIMIT_NOFILE, &new);
+        g().stats.f_fd_limit += 1;
+        (old.rlim_cur, fillers)
+    }
+}
+pub fn restore_fd_limit(tok: (u64, Vec<i32>)) {
+    unsafe {
+        let mut cur = libc::rlimit { rlim_cur: 0, rlim_max: 0 };
+        libc::getrlimit(libc::RLIMIT_NOFILE, &mut cur);
+        let new = libc::rlimit { rlim_cur: tok.0, rlim_max: cur.rlim_max };
+        libc::setrlimit(libc::RLIMIT_NOFILE, &new);
+        for fd in tok.1 {
+            raw6(libc::SYS_close, fd as i64, 0, 0, 0, 0, 0);
+        }
+    }
 }
 pub fn data_rng() -> &'static mut Rng {
     &mut g().rng_data
